@@ -450,6 +450,21 @@ class FaultsProj:
         return proj(a), proj(b), interesting
 
 
+class C13FaultsProj(FaultsProj):
+    """of the faults engine, only what the client receives for targets that answer completely (with or without a
+    preceding informational response): status, completeness, body length, number of 1xx responses passed on"""
+    def __init__(self):
+        super().__init__('client')
+
+    def step(self, kind, op, a, b):
+        if kind == 'setup':
+            return a, b, False
+        if kind == 'fault' and ('mode=early' in op or 'mode=ok' in op):
+            r = super().step(kind, op, a, b)
+            return (r[0], r[1], 'mode=early' in op) if r else None
+        return None
+
+
 class MwOnlyProj:
     """of the buffer engine, only the middleware runs (bodies through request/response buffering)"""
     def step(self, kind, op, a, b):
@@ -461,6 +476,11 @@ class MwOnlyProj:
 def _soak_extra(run):
     from checklib import soak_engine
     return soak_engine.soak_extra(run)
+
+
+def _soak_hang_extra(run):
+    from checklib import soak_engine
+    return soak_engine.soak_extra(run, hangs_only=True)
 
 
 def cli_extra(run):
@@ -544,8 +564,10 @@ PROPS = {
     ),
     'C13': dict(
         engines=[engine('rewrite', lambda: AllProj(lambda k, op, b: not b.endswith('404') and 'parse-error' not in b), 60, 6000),
-                 engine('buffer', MwOnlyProj, 40, 2000)],
-        rule="engine rewrite: per case 25 request-targets built from segments rich in percent-encoded octets (%2F %2f %7E %25 %20 %C3%A9, "
+                 engine('buffer', MwOnlyProj, 40, 2000), engine('faults', C13FaultsProj, 30, 2000)],
+        rule="engine faults (complete target responses only, incl. `103 Early Hints` before final statuses 200/201/404/503, buffered and "
+             "unbuffered, through a real http.Server front): final status, completeness, body length and the count of informational "
+             "responses the client received. engine rewrite: per case 25 request-targets built from segments rich in percent-encoded octets (%2F %2f %7E %25 %20 %C3%A9, "
              "stray %, invalid hex), reserved and unsafe characters, dot segments, doubled and trailing slashes, the prefix as first and "
              "later segment and spelled with an encoded letter, x raw queries (semicolons, stray %, empty, '?', '#') sent to services with "
              "and without a path prefix, with and without stripping, through the full handler chain to an in-memory target: the "
@@ -589,7 +611,7 @@ PROPS = {
                      "nil-pointer dereferences are not enumerated as panic sites"],
         trusted_extra=["/verif/verifx (go/packages + go/types walk producing Generated/Facts.lean)", "the Go race detector (dynamic cross-check only)"],
     ),
-    'C17': dict(engines=[proxy(C17Proj), control(C17CtlProj, 120, 4000)], assumptions=PROXY_ASSUME + ["real elapsed time (scheduler latency, file I/O, lock contention) is outside the "
+    'C17': dict(engines=[proxy(C17Proj), control(C17CtlProj, 120, 4000)], extra=_soak_hang_extra, assumptions=PROXY_ASSUME + ["real elapsed time (scheduler latency, file I/O, lock contention) is outside the "
                 "model: the virtual clock measures only what the code waits for"],
                 rule=RULE_PROXY + "Compared for C17: the virtual time at which every command returns and every probe sent (so probes after "
                      "remove / failed deploy / redeploy show). Non-trivial = a command returns."),
